@@ -33,7 +33,9 @@ func CheckDecode(s string) (b []byte, err error) {
 // CheckEncode encodes the given byte slice into a base58 string with a hash-based
 // checksum appended to it.
 func CheckEncode(b []byte) string {
-	b = append(b, hash.Checksum(b)...)
+	// The argument belongs to the caller, its spare capacity can be a part of
+	// something else (the bytes following a PUSHDATA operand in a script).
+	b = append(b[:len(b):len(b)], hash.Checksum(b)...)
 
 	return base58.Encode(b)
 }
